@@ -179,6 +179,50 @@ theorem merge_not_before_operand (a b : NMap Nat) (ha : NMap.WF a) (hb : NMap.WF
     have := (vclock_le_merge a b ha hb r).1
     omega
 
+/-- comparison and merge fit together: an operand equals the merge or happens before it -/
+theorem operand_le_merge (a b : NMap Nat) (ha : NMap.WF a) (hb : NMap.WF b) :
+    VClock.eq a (VClock.merge a b) = true ∨ VClock.happensBefore a (VClock.merge a b) = true := by
+  have hm : NMap.WF (VClock.merge a b) := NMap.wf_merge ha hb
+  have hle : ∀ r, VClock.get a r ≤ VClock.get (VClock.merge a b) r := fun r => (vclock_le_merge a b ha hb r).1
+  by_cases hex : ∃ r, VClock.get a r < VClock.get (VClock.merge a b) r
+  · right
+    obtain ⟨r, hr⟩ := hex
+    simp only [VClock.happensBefore, Bool.and_eq_true, Bool.or_eq_true, List.all_eq_true, List.any_eq_true,
+      decide_eq_true_eq]
+    refine ⟨?_, ?_⟩
+    · intro p hp
+      have := hle p.1
+      simpa [VClock.get, Crdt.get_of_mem ha hp] using this
+    · cases hga : NMap.get a r with
+      | some v =>
+        left
+        refine ⟨(r, v), NMap.mem_of_get hga, ?_⟩
+        simpa [VClock.get, hga] using hr
+      | none =>
+        right
+        cases hgm : NMap.get (VClock.merge a b) r with
+        | none => simp [VClock.get, hga, hgm] at hr
+        | some w =>
+          refine ⟨(r, w), NMap.mem_of_get hgm, ?_, ?_⟩
+          · simp [hga]
+          · simpa [VClock.get, hga, hgm] using hr
+  · left
+    have heq : ∀ r, VClock.get a r = VClock.get (VClock.merge a b) r := by
+      intro r
+      have h1 := hle r
+      have h2 : ¬ VClock.get a r < VClock.get (VClock.merge a b) r := fun h => hex ⟨r, h⟩
+      omega
+    simp only [VClock.eq, Bool.and_eq_true, List.all_eq_true, beq_iff_eq]
+    refine ⟨?_, ?_⟩
+    · intro p hp
+      have := heq p.1
+      simp only [VClock.get, Crdt.get_of_mem ha hp, Option.getD_some] at this
+      simp only [VClock.get]; exact this.symm
+    · intro p hp
+      have := heq p.1
+      simp only [VClock.get, Crdt.get_of_mem hm hp, Option.getD_some] at this
+      simp only [VClock.get]; exact this
+
 /-! ## GCounter / PNCounter -/
 
 theorem gcounter_merge_idem (a : NMap Nat) (ha : NMap.WF a) : GCounter.merge a a = a := Crdt.cmerge_idem ha
